@@ -133,10 +133,11 @@ theorem leadTrue_split (bs : List Bool) :
       · simpa [leadTrue] using h2
       · simp [leadTrue]; omega
 
-/-- the ranges finally put into the frame (the `if last_is_acked { if capacity > size { push } }` tail) -/
+/-- the ranges finally put into the frame (the `if last_is_acked { if capacity >= size { push } }` tail) -/
 def finalRanges (r : Fold) : List (Nat × Nat) :=
   if r.last then
-    if r.cap > rangeCountIncr r.ranges.length + GmQuic.Wire.varintSize (r.gap - 1) + GmQuic.Wire.varintSize (r.ack - 1)
+    if rangeCountIncr r.ranges.length + GmQuic.Wire.varintSize (r.gap - 1) + GmQuic.Wire.varintSize (r.ack - 1)
+        + GmQuic.Gen.ackLastSpare ≤ r.cap
     then r.ranges ++ [(r.gap - 1, r.ack - 1)] else r.ranges
   else r.ranges
 
